@@ -41,13 +41,15 @@ def ty_rng(ty):
 
 
 class IV:
-    __slots__ = ("lin", "lo", "hi", "res")
+    __slots__ = ("lin", "lo", "hi", "res", "cond")
 
-    def __init__(self, lin, lo, hi, res=False):
+    def __init__(self, lin, lo, hi, res=False, cond=None):
         self.lin, self.lo, self.hi, self.res = lin, lo, hi, res
+        self.cond = cond   # for an undecided comparison: (lower, upper) bounds that `a - b` (a linear form) satisfies when it is true / false
 
     def key(self):
-        return ("iv", tuple(sorted(self.lin.items())) if self.lin is not None else None, self.lo, self.hi, self.res)
+        return ("iv", tuple(sorted(self.lin.items())) if self.lin is not None else None, self.lo, self.hi, self.res,
+                (lin_key(self.cond[0]), self.cond[1], self.cond[2]) if self.cond else None)
 
     def is_const(self):
         return self.lo == self.hi and not self.res
@@ -221,6 +223,8 @@ class LinInterp:
         self.residue_adts = tuple(residue_adts)
         self.atoms = {}
         self.expand = {}
+        self.qinfo = {}        # Qk[L] -> (k, L)
+        self.facts = {}        # path facts: lin_key(N) -> (lo, hi) for a constant-free linear form N
         self.events = []       # (kind, location, text): possible overflows of checked arithmetic, imprecise branches
         self.max_states, self.max_steps = max_states, max_steps
         self.stats = {"steps": 0, "states": 0, "merged": 0, "forks": 0, "paths": 0}
@@ -234,7 +238,7 @@ class LinInterp:
                 self.expand[name] = expand
         return name
 
-    def lin_rng(self, lin):
+    def _rng(self, lin):
         lo = hi = lin.get("", 0)
         for a, c in lin.items():
             if a == "":
@@ -248,6 +252,42 @@ class LinInterp:
                 hi += c * alo
         return lo, hi
 
+    def lin_rng(self, lin):
+        """interval of a linear form: atoms taken independently, then tightened with x = Tk[x] + 2^k Qk[x] wherever the form contains both
+        a quotient atom Qk[x] and a multiple of x, and with the comparisons decided on this path"""
+        lo, hi = self._rng(lin)
+        for a in list(lin):
+            qi = self.qinfo.get(a)
+            if not qi:
+                continue
+            k, L = qi
+            piv = next((x for x in L if x != ""), None)
+            if piv is None or lin.get(piv, 0) % L[piv]:
+                continue
+            m = lin.get(piv, 0) // L[piv]
+            if m == 0 or any(lin.get(x, 0) != m * c for x, c in L.items() if x != ""):
+                continue
+            t = self.atom(f"T{k}[{lin_key(L)}]", 0, min((1 << k) - 1, max(self._rng(L)[1], 0)), expand=lin_add(L, {a: 1 << k}, -1))
+            l2 = lin_add(lin_add(lin, L, -m), {t: m, a: m << k})
+            lo2, hi2 = self._rng(l2)
+            lo, hi = max(lo, lo2), min(hi, hi2)
+        if self.facts:
+            n = {x: c for x, c in lin.items() if x != ""}
+            c0 = lin.get("", 0)
+            f = self.facts.get(lin_key(n))
+            if f:
+                if f[0] is not None:
+                    lo = max(lo, f[0] + c0)
+                if f[1] is not None:
+                    hi = min(hi, f[1] + c0)
+            f = self.facts.get(lin_key(lin_scale(n, -1)))
+            if f:
+                if f[1] is not None:
+                    lo = max(lo, -f[1] + c0)
+                if f[0] is not None:
+                    hi = min(hi, -f[0] + c0)
+        return lo, hi
+
     def mkv(self, lin, lo, hi):
         """None when the value set is empty (infeasible case)"""
         if lin is not None:
@@ -255,7 +295,7 @@ class LinInterp:
             lo, hi = max(lo, l2), min(hi, h2)
         if lo > hi:
             return None
-        if lo == hi:
+        if lo == hi and lin is None:
             lin = {"": lo} if lo else {}
         return IV(lin, lo, hi)
 
@@ -286,12 +326,33 @@ class LinInterp:
             cur = lin_add(cur, self.expand[a], c)
         else:
             raise Undecided("cyclic atom definitions")
+        for _ in range(64):
+            qa = next((a for a in cur if a in self.qinfo and cur[a] % (1 << self.qinfo[a][0]) == 0), None)
+            if qa is None:
+                break
+            k, L = self.qinfo[qa]
+            m = cur.pop(qa) >> k
+            lo, hi = self._rng(L)
+            tv = self.trunc(IV(dict(L), lo, hi), k)
+            if tv.lin is None:
+                return None
+            cur = lin_add(cur, lin_add(L, tv.lin, -1), m)
+            cur = self._expand_defs(cur)
         out = {}
         for a, c in cur.items():
             c %= self.p
             if c:
                 out[a] = c
         return out
+
+    def _expand_defs(self, cur):
+        for _ in range(10000):
+            todo = [a for a in cur if a in self.expand]
+            if not todo:
+                return cur
+            c = cur.pop(todo[0])
+            cur = lin_add(cur, self.expand[todo[0]], c)
+        raise Undecided("cyclic atom definitions")
 
     # ---- arithmetic ---------------------------------------------------------------------------
     def exact(self, op, a, b):
@@ -307,6 +368,11 @@ class LinInterp:
                 lin = lin_scale(lb, a.lo)
             elif b.is_const():
                 lin = lin_scale(la, b.lo)
+            elif la is not None and lb is not None and len(la) == 1 and len(lb) == 1 and "" not in la and "" not in lb \
+                    and list(la.values()) == [1] and list(lb.values()) == [1]:
+                # the product of two unknowns is a new unknown (the reductions that follow are linear in it)
+                pa = self.atom("P[" + "*".join(sorted([next(iter(la)), next(iter(lb))])) + "]", min(c), max(c))
+                lin = {pa: 1}
             return lin, min(c), max(c)
         raise Undecided(op)
 
@@ -320,7 +386,42 @@ class LinInterp:
         if la is None:
             return IV(None, a.lo >> k, a.hi >> k)
         q = self.atom(f"Q{k}[{lin_key(la)}]", a.lo >> k, a.hi >> k)
+        self.qinfo.setdefault(q, (k, dict(la)))
         return IV({q: 1}, *self.atoms[q])
+
+    def mod_pow2(self, la, k):
+        """a linear form congruent to `la` modulo 2^k whose interval lies in [0, 2^k) — then it IS la mod 2^k — or None.
+        Tj[x] = x (mod 2^k) for j >= k; c*A = c*T(k-j)[A] (mod 2^k) when 2^j divides c."""
+        cur = dict(la)
+        for _ in range(64):
+            rep = next((x for x in cur if x.startswith("T") and x in self.expand and int(x[1:x.index("[")]) >= k), None)
+            if rep is None:
+                break
+            c = cur.pop(rep)
+            cur = lin_add(cur, lin_add(self.expand[rep], {}, 1), c)
+            # expand[T] = x - 2^j Q: modulo 2^k (j >= k) the quotient term vanishes below
+        w = 1 << k
+        out = {}
+        for x, c in cur.items():
+            c %= w
+            if not c:
+                continue
+            if x != "":
+                j = (c & -c).bit_length() - 1
+                alo, ahi = self.atoms[x]
+                if j > 0 and alo >= 0 and ahi >= (1 << (k - j)):
+                    tv = self.trunc(IV({x: 1}, alo, ahi), k - j)
+                    if tv.lin is None:
+                        return None
+                    for y, cy in tv.lin.items():
+                        out[y] = out.get(y, 0) + c * cy
+                    continue
+            out[x] = out.get(x, 0) + c
+        out = {x: c for x, c in out.items() if c}
+        lo, hi = self._rng(out) if out else (0, 0)
+        if 0 <= lo and hi < w:
+            return out
+        return None
 
     def trunc(self, a, k):
         """a mod 2^k for a >= 0"""
@@ -331,8 +432,15 @@ class LinInterp:
         la = self.L(a)
         if la is None:
             return IV(None, 0, (1 << k) - 1)
+        nm = f"T{k}[{lin_key(la)}]"
+        if nm not in self.atoms:
+            red = self.mod_pow2(la, k)
+            if red is not None:
+                v = self.mkv(red, 0, (1 << k) - 1)
+                if v is not None:
+                    return v
         q = self.quot(a, k)
-        t = self.atom(f"T{k}[{lin_key(la)}]", 0, min((1 << k) - 1, a.hi), expand=lin_add(la, lin_scale(q.lin, 1 << k), -1))
+        t = self.atom(nm, 0, min((1 << k) - 1, a.hi), expand=lin_add(la, lin_scale(q.lin, 1 << k), -1))
         return IV({t: 1}, *self.atoms[t])
 
     def binop(self, op, a, b, ty, loc):
@@ -347,7 +455,16 @@ class LinInterp:
                 return self.const(1)
             if dec[1]:
                 return self.const(0)
-            return IV(None, 0, 1)
+            cond = None
+            if lin is not None:
+                n = {x: c for x, c in lin.items() if x != ""}
+                c0 = lin.get("", 0)
+                # bounds of n when the comparison is true / false
+                tb = {"Lt": (None, -1), "Le": (None, 0), "Gt": (1, None), "Ge": (0, None), "Eq": (0, 0), "Ne": None}[op]
+                fb = {"Lt": (0, None), "Le": (1, None), "Gt": (None, 0), "Ge": (None, -1), "Eq": None, "Ne": (0, 0)}[op]
+                sh = lambda bb: None if bb is None else tuple(None if x is None else x - c0 for x in bb)
+                cond = (n, sh(tb), sh(fb))
+            return IV(None, 0, 1, cond=cond)
         checked = op.endswith("WithOverflow")
         base = op.replace("WithOverflow", "").replace("Unchecked", "")
         rng = ty_rng(ty)
@@ -517,6 +634,8 @@ class LinInterp:
         name = c.get("def_name") or c.get("def") or ""
         if name.endswith("FieldElement::ZERO") and any(ty.endswith(a) for a in self.residue_adts):
             return ("adt", 0, [IV({}, 0, 0, True)])
+        if name.endswith("::ZERO") and ty.endswith("::BaseElement"):
+            return ("adt", 0, [self.const(0)])   # the additive identity is represented by 0 in every field of the crate (checked by C07 CONST)
         if name:
             try:
                 cd = self.prog.const(name)
@@ -565,6 +684,8 @@ class LinInterp:
                 self.events.append(("overflow", loc, "negation may overflow"))
                 return IV(None, r[0], r[1])
             if rv["op"] == "Not" and 0 <= a.lo and a.hi <= 1:
+                if a.cond and not a.is_const():
+                    return IV(None, 0, 1, cond=(a.cond[0], a.cond[2], a.cond[1]))
                 return self.mkv(lin_add({"": 1}, self.L(a), -1), 1 - a.hi, 1 - a.lo) or IV(None, 0, 1)
             return self.unknown(rv.get("ty", ""))
         if k == "cast":
@@ -679,6 +800,8 @@ class LinInterp:
             return tuple(self.freeze(x) for x in v)
         if isinstance(v, tuple) and v and v[0] == "adt":
             return ("adt", v[1], tuple(self.freeze(x) for x in v[2]))
+        if isinstance(v, dict):
+            return tuple(sorted(v.items()))
         if isinstance(v, tuple) and v and v[0] == "it":
             return tuple(self.freeze(x) for x in v)
         if isinstance(v, tuple):
@@ -696,6 +819,7 @@ class LinInterp:
         work = [(0, dict(env0), False)]
         while work:
             b, env, imp = work.pop()
+            self.facts = env.get("#facts") or {}
             self.stats["states"] += 1
             if self.stats["states"] > self.max_states:
                 raise Undecided("too many abstract states")
@@ -749,6 +873,35 @@ class LinInterp:
                             if v == d.lo:
                                 nb = tb
                         b = nb
+                        continue
+                    if d.cond is not None and d.lo == 0 and d.hi == 1:
+                        # an undecided comparison of two linear forms: each edge learns the bound the comparison implies
+                        succs = []
+                        for val in (0, 1):
+                            tb = next((x for v, x in listed if v == val), t["otherwise"])
+                            bnd = d.cond[1] if val == 1 else d.cond[2]
+                            e2 = dict(env)
+                            if bnd is not None:
+                                fk = lin_key(d.cond[0])
+                                f = dict(env.get("#facts") or {})
+                                o = f.get(fk, (None, None))
+                                nl = bnd[0] if o[0] is None else (o[0] if bnd[0] is None else max(o[0], bnd[0]))
+                                nh = bnd[1] if o[1] is None else (o[1] if bnd[1] is None else min(o[1], bnd[1]))
+                                f[fk] = (nl, nh)
+                                self.facts = f
+                                lo_, hi_ = self.lin_rng(d.cond[0])
+                                if lo_ > hi_:
+                                    continue
+                                e2["#facts"] = f
+                            succs.append((tb, e2))
+                        self.facts = env.get("#facts") or {}
+                        if not succs:
+                            break
+                        self.stats["forks"] += len(succs) - 1
+                        for tb, e2 in succs[1:]:
+                            work.append((tb, e2, imp))
+                        b, env = succs[0]
+                        self.facts = env.get("#facts") or {}
                         continue
                     # a branch the domain cannot decide: follow every edge whose value lies in the interval, without refinement
                     self.events.append(("imprecise", g.loc(b, "T"), "branch on a value the linear/interval domain does not determine"))
